@@ -270,6 +270,67 @@ pub fn run(tier: &str, seed: u64, replay: Option<String>) -> i32 {
             }
         }
     }
+    // more sane variants: whole-collection editor operations and uniform rescalings that keep
+    // the model closed and its data positive, but empty one of the sums the indicators divide by
+    let unusual: Vec<Vec<MEdit>> = vec![
+        vec![MEdit::SetAll { ptr: "/spaces".into(), key: "kind".into(), value: json!("UNINHABITED"), only_if: None }],
+        vec![MEdit::SetAll { ptr: "/spaces".into(), key: "kind".into(), value: json!("UNCONDITIONED"), only_if: None }],
+        vec![MEdit::SetAll { ptr: "/spaces".into(), key: "inside_tenv".into(), value: json!(false), only_if: None }],
+        vec![MEdit::SetAll { ptr: "/spaces".into(), key: "multiplier".into(), value: json!(25.0), only_if: None }],
+        vec![MEdit::SetAll { ptr: "/spaces".into(), key: "n_v".into(), value: json!(0.0), only_if: None }],
+        vec![MEdit::SetAll { ptr: "/walls".into(), key: "bounds".into(), value: json!("ADIABATIC"), only_if: Some(("bounds".into(), json!("EXTERIOR"))) }, MEdit::ArrayEmptied { ptr: "/windows".into() }],
+        vec![MEdit::SetAll { ptr: "/walls".into(), key: "bounds".into(), value: json!("ADIABATIC"), only_if: Some(("bounds".into(), json!("GROUND"))) }],
+        vec![MEdit::ArrayEmptied { ptr: "/windows".into() }, MEdit::ArrayEmptied { ptr: "/shades".into() }],
+        vec![MEdit::ArrayEmptied { ptr: "/thermal_bridges".into() }],
+        vec![MEdit::ArrayEmptied { ptr: "/shades".into() }],
+        vec![MEdit::SetAll { ptr: "/cons/wincons".into(), key: "f_f".into(), value: json!(1.0), only_if: None }],
+        vec![MEdit::SetAll { ptr: "/cons/wincons".into(), key: "f_f".into(), value: json!(0.0), only_if: None }],
+        vec![MEdit::SetAll { ptr: "/cons/wincons".into(), key: "g_glshwi".into(), value: json!(0.0), only_if: None }],
+        vec![MEdit::SetAll { ptr: "/cons/glasses".into(), key: "g_gln".into(), value: json!(0.0), only_if: None }],
+        vec![MEdit::SetAll { ptr: "/cons/wallcons".into(), key: "absorptance".into(), value: json!(0.0), only_if: None }],
+        vec![MEdit::SetAll { ptr: "/thermal_bridges".into(), key: "l".into(), value: json!(0.0), only_if: None }],
+        vec![MEdit::SetAll { ptr: "/thermal_bridges".into(), key: "psi".into(), value: json!(0.0), only_if: None }],
+        vec![MEdit::ScaleAll { gptr: "/windows/*/geometry/width".into(), factor: 10.0 }],
+        vec![MEdit::ScaleAll { gptr: "/windows/*/geometry/width".into(), factor: 0.01 }, MEdit::ScaleAll { gptr: "/windows/*/geometry/height".into(), factor: 0.01 }],
+        vec![MEdit::ScaleAll { gptr: "/windows/*/geometry/setback".into(), factor: 20.0 }],
+        vec![MEdit::ScaleAll { gptr: "/spaces/*/height".into(), factor: 0.05 }],
+        vec![MEdit::ScaleAll { gptr: "/spaces/*/height".into(), factor: 40.0 }],
+        vec![MEdit::ScaleAll { gptr: "/cons/wallcons/*/layers/*/e".into(), factor: 0.001 }],
+        vec![MEdit::ScaleAll { gptr: "/cons/wallcons/*/layers/*/e".into(), factor: 50.0 }],
+        vec![MEdit::ScaleAll { gptr: "/cons/materials/*/conductivity".into(), factor: 1000.0 }],
+        vec![MEdit::ScaleAll { gptr: "/cons/materials/*/conductivity".into(), factor: 0.0001 }],
+        vec![MEdit::ScaleAll { gptr: "/walls/*/geometry/polygon/*/*".into(), factor: 0.02 }],
+        vec![MEdit::ScaleAll { gptr: "/walls/*/geometry/polygon/*/*".into(), factor: 30.0 }],
+        vec![MEdit::SetMeta { key: "global_ventilation_l_s".into(), value: json!(0.0) }],
+        vec![MEdit::SetMeta { key: "n50_test_ach".into(), value: json!(0.01) }],
+        vec![MEdit::SetMeta { key: "num_dwellings".into(), value: json!(0) }],
+        vec![MEdit::SetMeta { key: "d_perim_insulation".into(), value: json!(0.0) }, MEdit::SetMeta { key: "rn_perim_insulation".into(), value: json!(0.0) }],
+        vec![MEdit::SetMeta { key: "d_perim_insulation".into(), value: json!(5.0) }, MEdit::SetMeta { key: "rn_perim_insulation".into(), value: json!(0.0) }],
+        vec![MEdit::SetMeta { key: "is_new_building".into(), value: json!(false) }, MEdit::SetMeta { key: "is_dwelling".into(), value: json!(false) }],
+    ];
+    for b in &bases {
+        for (k, es) in unusual.iter().enumerate() {
+            let mut es = es.clone();
+            if (k + n_variants) % 4 == 1 {
+                es.push(MEdit::SetClimate { zone: rng.pick(modelfault::CLIMATES).to_string() });
+            }
+            let mut st = json!({"base": b, "edits": es, "what": "variant", "require_all": false});
+            if !b.starts_with("min:") {
+                st["probe_base"] = json!(b);
+            }
+            steps.push(st);
+            n_variants += 1;
+        }
+        // every climate zone on the intact model
+        for z in modelfault::CLIMATES {
+            let mut st = json!({"base": b, "edits": [MEdit::SetClimate { zone: z.to_string() }], "what": "variant", "require_all": false});
+            if !b.starts_with("min:") {
+                st["probe_base"] = json!(b);
+            }
+            steps.push(st);
+            n_variants += 1;
+        }
+    }
     // ---- 2..3 simultaneous edits
     let n_multi = if thorough { 8000 } else { 400 };
     for _ in 0..n_multi {
